@@ -706,8 +706,20 @@ class Env:
             if extra:
                 g.update(extra)
             self.base = set(g)
+        if "IMP_PRE" in inputs:
+            # C14: stub import system (same stub class on both sides)
+            from .models.importstub import ImportStub
+
+            anchor = inputs.get("IMP_ANCHOR", 0)
+            stub = ImportStub(ev, inputs["IMP_PRE"], True if inputs.get("IMP_OTHER_ATTR") else False, inputs.get("V", []))
+            with NoTracing():
+                g["__builtins__"]["__import__"] = stub.__import__
+            pk = "pkg.sub" if anchor else "pkg"
+            g["__package__"] = pk
+            g["__name__"] = pk + ".mod"
+            self.import_stub = stub
         for k, v in inputs.items():
-            if k not in ("B", "NS"):
+            if k not in ("B", "NS", "IMP_PRE", "IMP_OTHER_ATTR", "IMP_ANCHOR"):
                 g[k] = v
         with NoTracing():
             self.base = set(g)
